@@ -246,7 +246,7 @@ def check_range(case):
 
 
 def shards(tier):
-    large = [Shard(f"large-{name}", check, strategy=cases_large(name), n=400, nontrivial=nontrivial,
+    large = [Shard(f"large-{name}", check, fuzz=0, strategy=cases_large(name), n=400, nontrivial=nontrivial,
                    classify=classify, thorough_mult=15)
              for name in ("nlargest", "nsmallest", "sorted", "min", "max", "reduce", "sum")]
     large += [Shard(f"big-numbers-{i}", check, strategy=big_number_cases(), n=15, nontrivial=lambda c: True,
